@@ -63,8 +63,13 @@ Refused(pool, c) ==
     [] c.op = "SplNew" -> \/ ~SupAcceptsI(Len(pool[c.grid].g), c.s, c.e)
                           \/ ~SplValid(Spl(pool[c.grid].g, c.s, c.e, c.o, c.c))
     [] c.op \in {"AddAssign", "SubAssign"} -> pool[c.dst].g # pool[c.src].g
-    [] c.op \in {"Add", "Sub", "Mul", "Union", "Inter"} -> pool[c.a].g # pool[c.b].g
+    [] c.op \in {"Add", "Sub", "Mul", "Union", "Inter", "BF"} -> pool[c.a].g # pool[c.b].g
+    [] c.op = "LinComb" -> \E i \in DOMAIN c.srcs : pool[c.srcs[i]].g # pool[c.srcs[1]].g
     [] OTHER -> FALSE
+
+FormOps(w) == CASE w = "sp" -> <<[k |-> "Id"], [k |-> "Id"]>>
+                [] w = "dx" -> <<[k |-> "Dx", n |-> 1], [k |-> "Dx", n |-> 1]>>
+                [] w = "xd" -> <<[k |-> "X", n |-> 1], [k |-> "Dx", n |-> 1]>>
 
 Eff(pool, c) ==
   IF Refused(pool, c) THEN pool
@@ -93,7 +98,8 @@ Eff(pool, c) ==
     [] c.op = "GetSupport" -> [pool EXCEPT ![c.dst] = SupV(SplSup(AsSpl(pool[c.src])))]
     [] c.op = "GetGrid" -> [pool EXCEPT ![c.dst] = GridV(pool[c.src].g)]
     [] c.op = "Destroy" -> [pool EXCEPT ![c.dst] = Null]
-    [] c.op = "Eval" -> pool
+    [] c.op = "LinComb" -> [pool EXCEPT ![c.dst] = SplV(LinCombI(c.cs, [i \in DOMAIN c.srcs |-> AsSpl(pool[c.srcs[i]])]))]
+    [] c.op \in {"Eval", "BF"} -> pool
 
 -----------------------------------------------------------------------------
 \* Level A: contract of one observed step.
@@ -125,12 +131,13 @@ TargetOK(pre, c, post) ==
     [] c.op = "GetSupport" -> post[c.dst] = SupV(SplSup(AsSpl(pre[c.src])))
     [] c.op = "GetGrid" -> post[c.dst] = GridV(pre[c.src].g)
     [] c.op = "Destroy" -> post[c.dst] = Null
-    [] c.op = "Eval" -> TRUE
+    [] c.op = "LinComb" -> IsSpl(post[c.dst]) /\ LinCombPost(c.cs, [i \in DOMAIN c.srcs |-> AsSpl(pre[c.srcs[i]])], AsSpl(post[c.dst]))
+    [] c.op \in {"Eval", "BF"} -> TRUE
 
 \* slots a successful step may change (C14: nothing else)
 Targets(c) ==
   CASE c.op \in {"Move", "MoveAssign"} -> {c.dst, c.src}
-    [] c.op = "Eval" -> {}
+    [] c.op \in {"Eval", "BF"} -> {}
     [] OTHER -> {c.dst}
 
 MustRefuse(pre, c) ==
@@ -138,7 +145,8 @@ MustRefuse(pre, c) ==
     [] c.op = "SupNew" -> ~SupValid(Sup(pre[c.grid].g, c.s, c.e))
     [] c.op = "SplNew" -> ~SplValid(Spl(pre[c.grid].g, c.s, c.e, c.o, c.c))
     [] c.op \in {"AddAssign", "SubAssign"} -> pre[c.dst].g # pre[c.src].g
-    [] c.op \in {"Add", "Sub", "Mul", "Union", "Inter"} -> pre[c.a].g # pre[c.b].g
+    [] c.op \in {"Add", "Sub", "Mul", "Union", "Inter", "BF"} -> pre[c.a].g # pre[c.b].g
+    [] c.op = "LinComb" -> \E i \in DOMAIN c.srcs : pre[c.srcs[i]].g # pre[c.srcs[1]].g
     [] OTHER -> FALSE
-CrossGrid(c) == c.op \in {"AddAssign", "SubAssign", "Add", "Sub", "Mul", "Union", "Inter"}
+CrossGrid(c) == c.op \in {"AddAssign", "SubAssign", "Add", "Sub", "Mul", "Union", "Inter", "LinComb", "BF"}
 =============================================================================
